@@ -693,3 +693,121 @@ def replay_verdict(run, doc):
     got = "Accepted" if ok else "Rejected"
     if got != d["exp"]:
         run.add_violation({"kind": "program", "records": doc["records"], "detail": dict(d, got=got + " " + msg)})
+
+
+# ------------------------------------------------------------------------------------------- C01
+_C01_MODELS = [  # (MC module, cfg, emits?)
+    ("MC_SliceIndex", "SliceIndex.quick.cfg"), ("MC_StrIndex", "StrIndex.quick.cfg"), ("MC_Matcher", "Matcher.c01.cfg"),
+    ("MC_StripTrim", "StripTrim.c01.cfg"), ("MC_CStr", "CStr.quick.cfg"), ("MC_Chars", "Chars.c01.cfg"),
+    ("MC_SliceIter", "SliceIter.c01.cfg"), ("MC_Split", "Split.c01.cfg"), ("MC_Parser", "Parser.c01.cfg"),
+    ("MC_Ownership", "Ownership.n2.cfg"), ("MC_Cmp", "Cmp.c01.cfg"), ("MC_ParseInt", "ParseInt.c01.cfg"),
+    ("MC_RangeIter", "RangeIter.char.cfg"),
+]
+
+
+@check("C01", rule="behaviours = the union of the vector / state-graph sets of the slice, string, search, trim, split, "
+                    "chars, slice-iterator, range, parser, comparison, CStr and ownership models (small configurations), "
+                    "(1) replayed natively with address-range / UTF-8 / char-boundary / drop-ledger monitors on every "
+                    "returned slice or str, (2) a stratified sample replayed under Miri, (3) a sample re-expressed as const "
+                    "items evaluated by rustc's const evaluator; plus the unsafe-precondition invariants of the models; "
+                    "non-trivial = the call returns a non-empty sub-slice or moves a value")
+def c01(run):
+    import random
+    import progs
+    import gen_consteval as gc
+    q = run.tier == "quick"
+    files = {}
+    for mod, cfg in _C01_MODELS:
+        out = vec("C01-%s.ndjson" % mod[3:])
+        if os.path.exists(out):
+            os.remove(out)
+        run.mc(mod, cfg, env={"OUT": out}, heap="6g", timeout=3000)
+        files[mod[3:]] = out
+    # ArrayBuild: assume_init precondition (no emission needed here)
+    run.mc("MC_ArrayBuild", "ArrayBuild.cfg", env={"OUT": "/dev/null"}, heap="2g", timeout=600)
+    run.mc("MC_Concat", "Concat.quick.cfg", env={"OUT": vec("C01-Concat.ndjson")}, heap="2g", timeout=600)
+    run.sample_file(files["SliceIndex"], k=2)
+    # (1) native replay with monitors
+    run.replay(list(files.values()), "native replay with monitors")
+    # (2) Miri on a stratified sample: per module, a seeded sample of lines
+    rnd = random.Random(run.seed)
+    per = 120 if q else 1500
+    shard_dir = os.path.join(WORK, "vec", "miri")
+    os.makedirs(shard_dir, exist_ok=True)
+    picked = []
+    for name, path in files.items():
+        lines = open(path).readlines()
+        if name == "Parser":
+            lines = [l for l in lines if len(l) < 40000]
+        rnd.shuffle(lines)
+        picked += lines[:per if name != "Parser" else per // 6]
+    rnd.shuffle(picked)
+    nsh = 14
+    shards = []
+    for k in range(nsh):
+        f = os.path.join(shard_dir, "shard-%d.ndjson" % k)
+        with open(f, "w") as fh:
+            fh.writelines(picked[k::nsh])
+        shards.append(f)
+    sums, fails = core.miri_replay(shards, shards=nsh)
+    mlines = sum(s["lines"] for s in sums)
+    mchecks = sum(s["checks"] for s in sums)
+    core.log("  miri   %d behaviours / %d calls interpreted without undefined behaviour (%d shards, %d failed)"
+             % (mlines, mchecks, len(shards), len(fails)))
+    run.extra["miri_behaviours"] = mlines
+    run.extra["miri_comparisons"] = mchecks
+    for s in sums:
+        for mm in s["mismatches"]:
+            run.add_violation({"kind": "vector", "detail": dict(mm, variant="miri:" + str(mm.get("variant"))), "records": [mm.get("rec")]})
+    for f, rc, out in fails:
+        ub = "Undefined Behavior" in out or "error: " in out
+        if not ub:
+            raise core.ToolError("Miri run failed without a diagnosis (rc=%s):\n%s" % (rc, out))
+        # find the record: re-run that shard with progress output
+        rec = {"shard": f}
+        run.add_violation({"kind": "vector", "records": [json.loads(l) for l in open(f).readlines()][:1],
+                           "detail": {"variant": "miri:undefined-behaviour", "monitor": core.tail(out, 12), "rec": rec}})
+    # (3) const evaluation of the const-fn surface
+    ps = progs.ProgSet(run, "C01-consteval")
+    import re as _re
+
+    def p8(v):
+        v = int(v)
+        if v <= 60:
+            return v
+        if v <= 127:
+            return (2**63 - 1) - (127 - v)
+        if v <= 190:
+            return 2**63 + (v - 128)
+        return (2**64 - 1) - (255 - v)
+    budget = {"Matcher": 400, "StripTrim": 400, "StrIndex": 400, "SliceIndex": 400, "CStr": 150, "ParseInt": 300}
+    for name, cap in budget.items():
+        lines = open(files[name]).readlines()
+        rnd.shuffle(lines)
+        n = 0
+        for l in lines:
+            r = json.loads(l)
+            if name == "Matcher":
+                c = gc.matcher(r)
+            elif name == "StripTrim":
+                c = gc.striptrim(r)
+            elif name == "StrIndex":
+                c = gc.strindex(r, p8)
+            elif name == "SliceIndex":
+                c = gc.sliceindex(r, p8)
+            elif name == "ParseInt":
+                c = gc.parseint(r)
+            else:
+                c = gc.cstr(r)
+            for cc in (c if isinstance(c, list) else [c]):
+                if cc is None:
+                    continue
+                ps.add(cc[0], cc[1], dict(r, mac="const-eval:" + name))
+                n += 1
+            if n >= (cap if q else cap * 5):
+                break
+    ps.execute()
+    run.assumptions += [BOUNDED, "freedom from undefined behaviour is established for the replayed behaviours (Miri's and the "
+                        "const evaluator's model of UB is trusted) and, at design level, for the bounded models whose unsafe "
+                        "preconditions are TLC invariants", "unsafe fns of konst::{ptr, maybe_uninit, manually_drop} are outside "
+                        "the property's 'safe API' scope"]
